@@ -26,6 +26,7 @@ CONSTANTS
   Objs,        \* live running-order objects, e.g. {1} or {1, 2}
   Depth,       \* steps per behaviour
   Mode,        \* "alphabet" | "random"
+  Theme,       \* alphabet mode: "all" | "story" | "item" | "carry"
   Export       \* TRUE: print each behaviour of length Depth
 
 VARIABLES ros, hist, ended
@@ -51,36 +52,76 @@ FirstItemOf(K, sid) ==
 (* a small alphabet of representative messages, built from the state      *)
 SecondStory(K) == LET s == StoryIds(K) IN IF Len(s) < 2 THEN UnknownS ELSE s[2]
 
-Alphabet(K) ==
+(* The alphabets.  Each is a small, state-dependent set of representative *)
+(* messages; "all" is their union.  A themed alphabet is small enough for *)
+(* every history of length 3 to be enumerated.                            *)
+SendTo(K, sid, n, st) == { m \in SendMsgs(K) : m.story = RefId(sid) /\ m.bodyPos = 4 /\ Len(m.body) = n /\ m.stok = st }
+
+AlphabetStory(K) ==          \* story-level traffic, incl. an id that comes back after it was deleted
   LET f == FirstStory(K)
       l == LastStory(K)
       sec == SecondStory(K)
-      fi == FirstItemOf(K, f)
-      fk == IF Idx(K, "story", f) = 0 THEN <<>> ELSE K[Idx(K, "story", f)].kids
   IN { Msg("StoryAppend", RefAbsent, RefAbsent, <<>>, FreshStories(K, 1)),
        Msg("StoryDelete", RefAbsent, RefAbsent, <<RefId(f)>>, <<>>),
        Msg("StoryMove", RefAbsent, RefAbsent, <<RefId(f), RefId(l)>>, <<>>),
        Msg("EAStorySwap", RefAbsent, RefAbsent, <<RefId(l), RefId(f)>>, <<>>),
+       Msg("EAStorySwap", RefAbsent, RefAbsent, <<RefId(l), RefId(sec)>>, <<>>),        \* first story stays
        Msg("StoryReplace", RefId(l), RefAbsent, <<>>, FreshStories(K, 2)),
-       Msg("ItemDelete", RefId(f), RefAbsent, <<RefId(fi)>>, <<>>),
+       Msg("StoryInsert", RefId(l), RefAbsent, <<>>, FreshStories(K, 1)),
+       Msg("StoryInsert", RefId(l), RefAbsent, <<>>, <<StoryN("S1", "'")>>),      \* S1 again: duplicate, or back after a delete
+       Msg("EAStoryInsert", RefBlank, RefAbsent, <<>>, <<StoryN("S2", "'")>>),
+       Msg("EAStoryMove", RefId(sec), RefAbsent, <<RefId(l), RefId(f)>>, <<>>) }
+     \cup SendTo(K, l, 4, None)
+     \cup { m \in OtherMsgs("RunningOrderReplace", K) : Len(m.carried) = 3 /\ m.carried[3].tag = "story" }
+
+AlphabetItem(K) ==           \* item-level traffic inside the first story, around a roReplace / roStorySend
+  LET f == FirstStory(K)
+      fi == FirstItemOf(K, f)
+      fk == IF Idx(K, "story", f) = 0 THEN <<>> ELSE K[Idx(K, "story", f)].kids
+  IN { Msg("ItemDelete", RefId(f), RefAbsent, <<RefId(fi)>>, <<>>),
        Msg("ItemInsert", RefId(f), RefBlank, <<>>, FreshItems(fk, 1)),
+       Msg("ItemInsert", RefId(f), RefId(fi), <<>>, FreshItems(fk, 2)),
+       Msg("EAItemReplace", RefId(f), RefId(fi), <<>>, FreshItems(fk, 1)),
+       Msg("EAItemMove", RefId(f), RefId(fi), <<RefId("I2")>>, <<>>),
+       Msg("ItemMoveMultiple", RefId(f), RefAbsent, <<RefId(fi), RefBlank>>, <<>>),
+       Msg("EAItemSwap", RefId(f), RefAbsent, <<RefId("I2"), RefId(fi)>>, <<>>) }
+     \cup SendTo(K, f, 4, None)
+     \cup { m \in OtherMsgs("RunningOrderReplace", K) : Len(m.carried) = 3 /\ m.carried[3].tag = "story" }
+
+AlphabetCarry(K) ==          \* messages that carry content, then edits inside what they carried
+  LET f == FirstStory(K)
+      l == LastStory(K)
+      fi == FirstItemOf(K, f)
+      li == FirstItemOf(K, l)
+      fk == IF Idx(K, "story", f) = 0 THEN <<>> ELSE K[Idx(K, "story", f)].kids
+  IN { Msg("StoryAppend", RefAbsent, RefAbsent, <<>>, FreshStories(K, 1)),
+       Msg("StoryReplace", RefId(f), RefAbsent, <<>>, FreshStories(K, 2)),
+       Msg("ItemDelete", RefId(f), RefAbsent, <<RefId(fi)>>, <<>>),
+       Msg("ItemDelete", RefId(l), RefAbsent, <<RefId(li)>>, <<>>),
+       Msg("ItemInsert", RefId(l), RefBlank, <<>>, FreshItems(fk, 1)),
        Msg("EAItemReplace", RefId(f), RefId(fi), <<>>, FreshItems(fk, 1)),
        Msg("MetaDataReplace", RefAbsent, RefAbsent, <<>>,
-           << Leaf("roID", RoIdC, "="), Leaf("roSlug", None, "x:newSlug") >>),
-       Msg("StoryDelete", RefAbsent, RefAbsent, <<RefId(UnknownS)>>, <<>>),
-       Msg("EAStorySwap", RefAbsent, RefAbsent, <<RefId(l), RefId(sec)>>, <<>>),        \* first story stays
+           << Leaf("roID", RoIdC, "="), Leaf("roSlug", None, "x:newSlug") >>) }
+     \cup { m \in SendMsgs(K) : m.story = RefId(f) /\ m.bodyPos = 5 /\ Len(m.body) = 1 /\ m.stok = "a:send" }
+     \cup { m \in OtherMsgs("RunningOrderReplace", K) : Len(m.carried) = 3 /\ m.carried[3].tag = "story" }
+
+AlphabetMisc(K) ==
+  LET f == FirstStory(K)
+  IN { Msg("StoryDelete", RefAbsent, RefAbsent, <<RefId(UnknownS)>>, <<>>),
        Msg("StoryAppend", RefAbsent, RefAbsent, <<>>,
            <<StoryNT(FreshFrom(FreshPoolS, IdSet(K, "story"))[1])>>),                     \* a story without timing
-       Msg("StoryInsert", RefId(l), RefAbsent, <<>>, FreshStories(K, 1)),
-       Msg("EAItemMove", RefId(f), RefId(fi), <<RefId("I2")>>, <<>>),
-       Msg("StoryInsert", RefId(l), RefAbsent, <<>>, <<StoryN("S1", "'")>>),      \* S1 again: duplicate, or back after a delete
        Msg("StoryAppend", RefAbsent, RefAbsent, <<>>, <<StoryN("S1 ", "")>>),     \* an id that differs by trailing blank
        Msg("RunningOrderEnd", RefAbsent, RefAbsent, <<>>, <<Leaf("roDelete", None, "x:roDelete.foreign")>>),
        Msg("StoryReplace", RefId(UnknownS), RefAbsent, <<>>, FreshStories(K, 1)),
        Msg("RunningOrderEnd", RefAbsent, RefAbsent, <<>>, <<Leaf("roDelete", None, "x:roDelete")>>) }
-     \cup { m \in SendMsgs(K) : m.story = RefId(l) /\ m.bodyPos = 4 /\ Len(m.body) >= 4 /\ m.stok = None }
-     \cup { m \in SendMsgs(K) : m.story = RefId(f) /\ m.bodyPos = 5 /\ Len(m.body) = 1 /\ m.stok = "a:send" }
-     \cup { m \in OtherMsgs("RunningOrderReplace", K) : Len(m.carried) = 3 }
+     \cup SendTo(K, FirstStory(K), 5, None)
+     \cup { m \in OtherMsgs("RunningOrderReplace", K) : Len(m.carried) = 3 /\ m.carried[3].tag # "story" }
+
+Alphabet(K) ==
+  CASE Theme = "story" -> AlphabetStory(K)
+    [] Theme = "item"  -> AlphabetItem(K)
+    [] Theme = "carry" -> AlphabetCarry(K)
+    [] OTHER -> AlphabetStory(K) \cup AlphabetItem(K) \cup AlphabetCarry(K) \cup AlphabetMisc(K)
 
 StoryIdsSet(K) == IdSet(K, "story")
 
@@ -131,9 +172,14 @@ ObserveStep ==
      /\ hist' = Append(hist, [k |-> "observe", obj |-> o, ref |-> 0, msg |-> NoMsg])
      /\ UNCHANGED <<ros, ended>>
 
+(* alphabet mode: the FIRST message object of the history is merged again  *)
+RemergeFirst ==
+  \E o \in Objs : hist # <<>> /\ hist[1].k = "merge" /\ Apply(o, hist[1].msg, "remerge", 1)
+
 Next ==
   /\ Len(hist) < Depth
   /\ \/ MergeStep
+     \/ (Mode = "alphabet" /\ Theme \in {"carry", "all"} /\ RemergeFirst)
      \/ (Mode = "random" /\ RemergeStep)
      \/ (Mode = "random" /\ ReloadStep)
      \/ (Mode = "random" /\ ObserveStep)
